@@ -674,6 +674,10 @@ def obligations(tier):
         f = H.impl_function({"polars": PB.PolarsImpl, "sqlite": H.sqlite_backend.SqliteImpl}[backend], ops.shift, (Int64(), H.types_mod.Const(Int64()), H.types_mod.Const(Int64())))
         obs.append(Obligation(f"C05/W6/shift/{backend}", "W6", "shift(n) reads the row n positions earlier for every (symbolic) n", make_shift_run(backend), functions=[fi(f)] if f else []))
         if backend == "polars":
+            from . import c16
+
+            obs.append(Obligation("C05/W7/order_across_subquery", "W7", "the order fixed by arrange survives alias() / a SQL subquery: kept by the outer query, tie breaker of a later arrange, default order of later window functions (native, vs Polars)",
+                                  c16._conc("pipelines with an arrange before alias() give the same row sequence on SQLite as on Polars", c16.x9_check), functions=[fi(SB.SqlImpl.compile_ast)], bounded="7 pipelines x 2 backends on one 6-row table", tags=("cross_backend",)))
             obs.append(Obligation("C05/LIB/after_slice", "LIB", "window functions after slice_head see the sliced rows (also nested in other expressions)", lib_slice_run, functions=[fi(H.pdt._internal.pipe.cache.Cache.requires_subquery), fi(SB.SqlImpl.compile_ast)],
                                   bounded="7 window expressions (3 nested) x with / without alias x 2 backends on one 10-row table", tags=("cross_backend",)))
         for fn_name in ("row_number", "rank", "dense_rank", "shift", "shift_neg", "cum_sum"):
